@@ -1,5 +1,6 @@
 import SdcModel.Consumer
 import SdcModel.Proofs.Consumer
+import SdcModel.Generated.ConsumerLocks
 /-!
 # C06 — the consumer MDIB never regresses under lost, duplicated or reordered reports
 
@@ -219,6 +220,21 @@ theorem buffering_exact (s : St) (rs : List Report) (hm : s.mode = .initializing
     run s (rs.map .report) = { s with buf := s.buf ++ rs } :=
   run_reports_initializing hm
 
+/-! ### the atomicity assumptions of the model, from the traced programs (regenerated on every run) -/
+
+/-- `reloadEnd` is atomic in the model because, in the traced `reload_all`, the switch to `initialized` happens inside
+    the buffer-lock section (state switch inside the buffer-lock section: a notification thread can never see
+    `initializing` together with an already replayed buffer) -/
+theorem reload_switches_inside_buffer_lock :
+    switchInsideLock false Generated.reloadAllTrace = true ∧
+    Generated.reloadAllTrace.contains (.writeState .initialized) = true := by decide
+
+/-- `finishBuffered` is the right second half: the traced `_pre_check_report_ok` reads the state again inside its
+    buffer-lock section before it appends -/
+theorem precheck_rechecks_inside_buffer_lock :
+    recheckBeforeAppend false false Generated.preCheckTrace = true ∧
+    Generated.preCheckTrace.contains .append = true := by decide
+
 /-- the pre-check of a notification is not atomic (state read, then buffer lock, then state read again).  For a
     notification thread that saw `initializing`: if it gets the buffer lock before `reload_all` replays, the report is
     buffered exactly as in the atomic step … -/
@@ -227,6 +243,7 @@ theorem buffer_race_early (s : St) (r : Report) (hm : s.mode = .initializing) :
   unfold finishBuffered; rw [step_report_initializing r hm]; simp [hm]
 
 /-- … and if `reload_all` finishes first (every interleaving: `reloadEnd` is atomic with respect to the buffer lock),
+    the state switch happens inside the buffer-lock section, `reload_switches_inside_buffer_lock`),
     the re-check under the lock sends the report through its handler: it is not appended to the (already replayed)
     buffer, the buffer stays empty, nothing is lost and nothing is applied twice -/
 theorem buffer_race_late (s : St) (r : Report) (snap : Snapshot) (ctx2 : List CState) (hm : s.mode = .initializing)
